@@ -396,5 +396,6 @@ func (vc *VC) xorUF(x, y Term, bits uint) Term {
 	inr := func(v Term) Term { return and(app("<=", "0", v), app("<", v, lim)) }
 	vc.axiomOnce(name+".def", fmt.Sprintf("(forall ((a Int) (b Int)) (! (= (%s a b) %s) :pattern ((%s a b))))", name, bitwiseGeneral("^", "a", "b", bits), name))
 	vc.axiomOnce(name+".inv", fmt.Sprintf("(forall ((a Int) (b Int)) (! (=> (and %s %s) (= (%s (%s a b) b) a)) :pattern ((%s (%s a b) b))))", inr("a"), inr("b"), name, name, name, name))
+	vc.trustedUsed["axiom: (a ^ b) ^ b == a for operands below 2^"+fmt.Sprint(bits)+" (besides the bit-level definition of xor)"] = true
 	return app(name, x, y)
 }
